@@ -32,7 +32,8 @@ RULE = (
     'directory, raw data at ../<name>, symlinked files, a stored inverse that is only approximate'
     'ly the inverse and older than the matrix file, integer whitening matrices, 2**20+7 spikes wi'
     'th one inversion on a power-of-two boundary, a rejected load leaves the directory untouched,'
-    ' an in-place edit of spike_clusters leaves the other arrays equal to their files.')
+    ' an in-place edit of spike_clusters leaves the other arrays equal to their files, a dataset'
+    ' with the stored inverse but no whitening matrix file.')
 ASSUMPTIONS = ['datasets with >=2 spikes/templates/channels/samples (squeeze degeneracy is a '
                'documented precondition)', 'mtscomp as codec']
 
@@ -293,6 +294,8 @@ def classify(case, info):
         sw.append('no-whitening')
     if s['wmi_file']:
         sw.append('wmi-file')
+    if s.get('wmi_only'):
+        sw.append('wmi-file-only')
     if s['shanks'] is not None:
         sw.append('shanks')
     if s['probes_file']:
